@@ -151,7 +151,7 @@ contract("src/gene_info.py:StrandDetector.get_strand",
          native=False)
 
 
-@finite("C18.intron_strand_table", ["C18"], note="get_intron_strand / get_strand of src/common.py enumerated over every pair of "
+@finite("C18.intron_strand_table", ["C18", "C11"], note="get_intron_strand / get_strand of src/common.py enumerated over every pair of "
         "site dinucleotides over {A,C,G,T,N,a,c,g,t}; the forward and reverse tables are reverse complements of each other")
 def c18_table(tier, rng):
     com = native.repo_import("src/common.py")
@@ -220,6 +220,46 @@ def c18_vote(tier, rng):
                                      "observed": {"get_strand": got, "get_clean_strand": clean}, "required": {"get_strand": want, "get_clean_strand": want_clean}})
     return {"obligations": obl, "discharged": dis, "violations": viol, "cases": obl, "exhaustive": True,
             "bound": "all strand assignments of <= 5 introns x 4 tail flag pairs", "samples": [{"intron_strands": ["+", "-"], "has_polya": True, "want": "+"}]}
+
+
+@finite("C18.annotated_intron_strands", ["C18", "C04"], note="the real GraphBasedModelConstructor.set_gene_properties on every annotation of one "
+        "intron by 1-3 isoforms with strands from {+,-} x 3 reference contexts (GT..AG, CT..AC, non-canonical): an intron annotated on one "
+        "strand only takes that strand, an intron annotated on both strands is decided by the reference dinucleotides - never by how many "
+        "isoforms or which of them comes first")
+def c18_annotated(tier, rng):
+    import itertools, types
+    from collections import defaultdict
+    gm = native.repo_import("src/graph_based_model_construction.py")
+    gi = native.repo_import("src/gene_info.py")
+    obl = dis = 0
+    viol = []
+    contexts = {"+": ("GT", "AG"), "-": ("CT", "AC"), ".": ("AA", "TT")}
+    intron = (11, 40)
+    for ref_strand, (l, r) in contexts.items():
+        seq = "N" * 10 + l + "N" * 26 + r + "N" * 10          # 1-based positions 11..40 hold the intron
+        for n in (1, 2, 3):
+            for strands in itertools.product("+-", repeat=n):
+                obl += 1
+                g = types.SimpleNamespace(all_isoforms_introns={"t%d" % k: [intron] for k in range(n)},
+                                          isoform_strands={"t%d" % k: s_ for k, s_ in enumerate(strands)},
+                                          gene_id_map={"t%d" % k: "g%s" % ("P" if s_ == "+" else "M") for k, s_ in enumerate(strands)})
+                c = gm.GraphBasedModelConstructor.__new__(gm.GraphBasedModelConstructor)
+                c.gene_info, c.chr_record = g, seq
+                c.strand_detector = gi.StrandDetector(seq)
+                c.intron_genes = defaultdict(set)
+                try:
+                    c.set_gene_properties()
+                    got = c.strand_detector.strand_dict.get(intron)
+                except Exception as e:
+                    got = "%s: %s" % (type(e).__name__, e)
+                want = strands[0] if len(set(strands)) == 1 else ref_strand
+                if got == want:
+                    dis += 1
+                elif len(viol) < 3:
+                    viol.append({"obligation": "C18.annotated_intron_strands.%s.%s" % ({"+": "fwd", "-": "rev", ".": "none"}[ref_strand], "".join(strands).replace("+", "p").replace("-", "m")),
+                                 "inputs": {"isoform_strands": list(strands), "reference_sites": [l, r]}, "observed": got, "required": want})
+    return {"obligations": obl, "discharged": dis, "violations": viol, "cases": obl, "exhaustive": True,
+            "bound": "1-3 isoforms x strands x 3 reference contexts", "samples": [{"isoform_strands": ["+", "-", "-"], "reference_sites": ["GT", "AG"], "want": "+"}]}
 
 
 def _isolation_case(seed):
